@@ -173,6 +173,13 @@ def candidate_ops(world, rng=None, lookups=True):
             ops.append({"op": "childAtPath", "n": n, "path": "item/x"})
             ops.append({"op": "childAtPath", "n": n, "path": "item/p:x"})
             ops.append({"op": "childAtPath", "n": n, "path": "/item//item/"})
+            for ce in e.children[:2]:
+                for ge in ce.children[:2]:
+                    for gp in {ge.prefix, "p", "q"}:
+                        path = ce.name + "/" + (ge.name if gp is None else "%s:%s" % (gp, ge.name))
+                        ops.append({"op": "childAtPath", "n": n, "path": path})
+                        if ce.prefix is not None:
+                            ops.append({"op": "childAtPath", "n": n, "path": "%s:%s" % (ce.prefix, path)})
             ops.append({"op": "getAttribute", "n": n, "name": "k"})
             ops.append({"op": "getAttribute", "n": n, "name": "p:k"})
     # a replaceChild on a node that is not a child
